@@ -13,6 +13,12 @@ def main():
     elif p.get("replay_kind") == "pair" and "rename_back" in p:
         from checks.sys_checks import replay_pair
         still = replay_pair(p)
+    elif p.get("replay_kind") == "script":
+        import subprocess
+        pr = subprocess.run([sys.executable, "-c", p["script"]] + list(p.get("argv", [])), capture_output=True, text=True, timeout=300, cwd="/")
+        out = pr.stdout + pr.stderr
+        print("native: exit status", pr.returncode, "output tail", repr(out[-200:]))
+        still = "RETURNED 0" not in out
     elif p.get("replay_kind") == "nest-reuse":
         from checks.sys_checks import _nest_reuse_eval
         r = _nest_reuse_eval(p["variant"])
